@@ -389,7 +389,17 @@ class Emitter:
                 raise Unsupported(f"{qual}: assignment `{norm(s)[:60]}`")
             env[tg.id] = subst(s.value, env)
             return
-        if isinstance(s, ast.Pass):
+        if isinstance(s, (ast.Pass, ast.Assert)):
+            return
+        if isinstance(s, ast.Delete) and all(isinstance(t, ast.Name) for t in s.targets):
+            for t in s.targets:
+                env.pop(t.id, None)
+            return
+        if isinstance(s, ast.Try) and not s.orelse and all(len(h.body) == 1 and isinstance(h.body[0], ast.Raise) and h.body[0].exc is None for h in s.handlers) \
+                and not any(isinstance(n, (ast.Yield, ast.YieldFrom, ast.Return, ast.Continue, ast.Break)) for f_ in s.finalbody for n in ast.walk(f_)):
+            # handlers that only re-raise, a finally that emits nothing and does not leave: what is emitted is what the body emits
+            self.block(s.body, env, tenv, cls, out, depth, qual)
+            self.block([f_ for f_ in s.finalbody if isinstance(f_, (ast.Delete, ast.Pass, ast.Assert))] if all(isinstance(f_, (ast.Delete, ast.Pass, ast.Assert, ast.Expr)) for f_ in s.finalbody) else s.finalbody, env, tenv, cls, out, depth, qual)
             return
         raise Unsupported(f"{qual}: statement kind {type(s).__name__} at line {s.lineno}")
 
